@@ -1,6 +1,6 @@
 (* C08 - naming and rule order are semantically transparent (over Sem.v). Generics, sockets and
    parentheses are resolved by the parser before validation: for those the check is metamorphic on the code. *)
-From Cddl Require Import Sem.Syntax Sem.Validator Sem.Sem Sem.Transparent.
+From Cddl Require Import Sem.Syntax Sem.Validator Sem.Sem Sem.Transparent Sem.Reach Sem.Rename.
 From Coq Require Import Permutation.
 Open Scope Z_scope.
 
@@ -28,3 +28,57 @@ Example C08_example :
   MatchT true [(0%N, DType (TRef 1%N)); (1%N, DType (TRef 1001%N))] (TRef 0%N) (VInt 5)
   <-> MatchT true [(1%N, DType (TRef 1001%N)); (0%N, DType (TRef 1%N))] (TRef 0%N) (VInt 5).
 Proof. apply rule_order_irrelevant; [repeat constructor; cbn; intuition discriminate|apply perm_swap]. Qed.
+
+(* adding, removing or changing rules that are not reachable: R is any set of names that contains the
+   references of the type and is closed under the rules' own references; rule sets that resolve the names
+   of R alike give the same verdicts (Sem/Reach.v; proved on the decider at every fuel, then lifted) *)
+Theorem C08_unreachable_rules_irrelevant : forall R jm e e' t v,
+  (forall n, R n = true -> lookup_all e n = lookup_all e' n) ->
+  (forall n d, R n = true -> lookup_all e n = Some d -> def_refs_in R d = true) ->
+  refs_in R t = true ->
+  (MatchT jm e t v <-> MatchT jm e' t v) /\ (FailT jm e t v <-> FailT jm e' t v).
+Proof. exact reach_sem. Qed.
+
+(* renaming rules consistently: an injective renaming that leaves the prelude names alone (Sem/Rename.v) *)
+Theorem C08_renaming : forall s jm e t v,
+  (forall a b, s a = s b -> a = b) -> (forall n, N.le 1000 n -> s n = n) ->
+  (MatchT jm (eren s e) (ren s t) v <-> MatchT jm e t v) /\ (FailT jm (eren s e) (ren s t) v <-> FailT jm e t v).
+Proof. exact rename_sem. Qed.
+
+Theorem C08_renaming_decider : forall s jm e f t v,
+  (forall a b, s a = s b -> a = b) -> (forall n, N.le 1000 n -> s n = n) ->
+  vt f jm (eren s e) (ren s t) v = vt f jm e t v.
+Proof. exact rename_vt. Qed.
+
+(* non-vacuity: swapping the names 0 and 1 of a two-rule schema; a dead rule added to it *)
+Definition swap01 (n : name) : name := if N.eqb n 0 then 1%N else if N.eqb n 1 then 0%N else n.
+Lemma swap01_inj : forall a b, swap01 a = swap01 b -> a = b.
+Proof.
+  intros a b. unfold swap01.
+  destruct (N.eqb a 0) eqn:A0; destruct (N.eqb b 0) eqn:B0; destruct (N.eqb a 1) eqn:A1; destruct (N.eqb b 1) eqn:B1;
+    repeat match goal with H : N.eqb _ _ = true |- _ => apply N.eqb_eq in H | H : N.eqb _ _ = false |- _ => apply N.eqb_neq in H end;
+    intros; subst; try reflexivity; try lia; try contradiction; try congruence.
+Qed.
+Lemma swap01_fix : forall n, N.le 1000 n -> swap01 n = n.
+Proof.
+  intros n Hn. unfold swap01. destruct (N.eqb n 0) eqn:A0; [apply N.eqb_eq in A0; lia|].
+  destruct (N.eqb n 1) eqn:A1; [apply N.eqb_eq in A1; lia|reflexivity].
+Qed.
+Example C08_renaming_example :
+  let e := [(0%N, DType (TArr (GOcc 0 None (GEnt None false (TRef 1%N))))); (1%N, DType (TOr (TRef 1001%N) (TRef 0%N)))] in
+  eren swap01 e = [(1%N, DType (TArr (GOcc 0 None (GEnt None false (TRef 0%N))))); (0%N, DType (TOr (TRef 1001%N) (TRef 1%N)))] /\
+  (MatchT true (eren swap01 e) (TRef 1%N) (VArr [VInt 1; VArr []]) <-> MatchT true e (TRef 0%N) (VArr [VInt 1; VArr []])).
+Proof. split; [reflexivity|]. exact (proj1 (rename_sem swap01 true _ (TRef 0%N) _ swap01_inj swap01_fix)). Qed.
+
+Example C08_dead_rule_example :
+  let e := [(0%N, DType (TRef 1%N)); (1%N, DType (TRef 1001%N))] in
+  let e' := [(0%N, DType (TRef 1%N)); (7%N, DType (TRef 7%N)); (1%N, DType (TRef 1001%N))] in
+  MatchT true e (TRef 0%N) (VInt 5) <-> MatchT true e' (TRef 0%N) (VInt 5).
+Proof.
+  cbv zeta.
+  refine (proj1 (reach_sem (fun n => N.eqb n 0 || N.eqb n 1 || N.eqb n 1001) true _ _ (TRef 0%N) (VInt 5) _ _ eq_refl)).
+  - intros n Hn. apply orb_true_iff in Hn. destruct Hn as [Hn|Hn]; [apply orb_true_iff in Hn; destruct Hn as [Hn|Hn]|];
+      apply N.eqb_eq in Hn; subst n; reflexivity.
+  - intros n d Hn L. apply orb_true_iff in Hn. destruct Hn as [Hn|Hn]; [apply orb_true_iff in Hn; destruct Hn as [Hn|Hn]|];
+      apply N.eqb_eq in Hn; subst n; vm_compute in L; injection L as <-; reflexivity.
+Qed.
